@@ -22,15 +22,18 @@ RULE = ('all (format table, record kind, field) x value alphabet (reals: sign x 
         'count 1..w+1 both signs; names: all strings over {a,Z,7,blank} to length min(w,5)+1 and lengths 0,1,w-1,w,w+1) '
         'with full-width sentinels elsewhere, and None at the field / at each other position; plus the dictionary route '
         '(write_value_line -> read_value_line into a fresh dictionary) for every record kind with unique field names, '
-        'each field zero or absent; a case is non-trivial '
+        'each field zero or absent; plus the crossed units: every PAIR of fields of a record kind (thorough: also every three '
+        'adjacent fields) each at absent / zero / widest-that-fits / narrowest-that-does-not, both signs; a case is non-trivial '
         'when the value under test is not None; distinct = distinct (table, record, field, value, None-position)')
 ASSUMPTIONS = ['records are written and parsed through fixed_format_file.write_values_to_string / parse_string of the '
                'parser classes the library itself instantiates (t2data_parser, t2_extra_precision_data_parser, '
                't2incon_parser, fixed_format_file with the mulgrid table)',
                'reference column positions are the cumulative absolute widths of the format strings',
                'reference value of a printed real is ref/fortnum.parse_real (exact decimal -> nearest double)']
-BOUNDS = {'quick': {'exponents': 'boundary set of 25 decimal exponents in -120..120', 'none_pairs': 'one value'},
-          'thorough': {'exponents': 'all 241 decimal exponents -120..120', 'none_pairs': 'three values'}}
+BOUNDS = {'quick': {'exponents': 'boundary set of 25 decimal exponents in -120..120', 'none_pairs': 'one value',
+                    'crossed': 'every pair of fields of every record kind x reduced boundary alphabet (4-12 values per field)'},
+          'thorough': {'exponents': 'all 241 decimal exponents -120..120', 'none_pairs': 'three values',
+                       'crossed': 'every pair of fields x wider boundary alphabet; every three adjacent fields x reduced alphabet'}}
 
 MANT = [1.0, 1.5, 5.0, 9.5, 1.2345678901234567, 9.999999999999999]
 QUICK_EXP = [-120, -101, -100, -99, -98, -38, -10, -9, -5, -4, -3, -2, -1, 0, 1, 2, 3, 4, 5, 9, 10, 38, 99, 100, 120]
@@ -120,6 +123,7 @@ def units(tier):
     for tname, parser in tables().items():
         for rec_kind in parser.specification:
             us.append((tname, rec_kind))
+            us.append(('pairs', tname, rec_kind))
     us.append(('dict-path',))
     us.append(('two-parsers',))
     us.append(('containers-and-files',))
@@ -549,7 +553,153 @@ def vclass(typ, val):
     return ('neg' if val < 0 else 'pos') + ('-exp3' if abs(e) >= 100 else '-exp2')
 
 
+def pair_values(typ, w, prec, tier):
+    """Reduced boundary alphabet of one field for the crossed (two / three fields at once) units: absent, zero,
+    the widest values that fit, the narrowest that do not, both signs."""
+    if typ == 'd':
+        vals = [None, 0, 10 ** w - 1, 10 ** w]
+        if w >= 2:
+            vals += [-(10 ** (w - 1) - 1), -(10 ** (w - 1))]
+        if tier == 'thorough':
+            vals += [1, -1] if w >= 2 else [1]
+    elif typ == 's':
+        vals = [None, '', 'b' * w, 'b' * (w + 1)]
+        if w >= 2:
+            vals.append('b' * (w - 1) + ' ')
+        if tier == 'thorough' and w >= 2:
+            vals += [' ' + 'b' * (w - 1), 'b']
+    elif typ == 'f':
+        p = prec or 0
+        vals = [None, 0.0, 1.0, -1.0]
+        for k in range(max(0, w - p - 4), w + 1):
+            vals += [9.99999 * 10.0 ** k, -9.99999 * 10.0 ** k]
+    else:
+        vals = [None, 0.0, 9.999999999999999e99, -9.999999999999999e99, 1e100, -1e-100, -1.2345678901234567e5, 1.5e-5]
+        if tier == 'thorough':
+            vals += [-0.0, 9.5e-100, -9.999999999999999e-1, 1.2345678901234567e-10, -1e100]
+    return vals
+
+
+def check_field(base, typ, w, prec, text, got, val, s):
+    """The clauses of eval_case for the field under test, for the crossed units."""
+    out = []
+    if typ == 'x':
+        return out
+    if val is None:
+        if not (got is None or (isinstance(got, str) and got.strip() == '')):
+            out.append((base + '|absent-not-absent', 'absent value reads back %r from %r' % (got, s)))
+    elif typ == 'd':
+        if got != val:
+            out.append((base + ('|int-wrong' if fits(typ, w, prec, val) else '|int-silently-wrong|' + vclass(typ, val)),
+                        'integer %r reads back %r from %r' % (val, got, s)))
+    elif typ == 's':
+        if len(val) <= w:
+            if not (isinstance(got, str) and got.strip(' ') == val.strip(' ') and len(got) == w):
+                out.append((base + '|name-wrong', 'name %r reads back %r from %r' % (val, got, s)))
+    else:
+        pr = fortnum.parse_real(text)
+        if pr is None or pr[0] == 'blank':
+            out.append((base + '|real-unreadable|' + vclass(typ, val), 'real %r printed as %r which is not a number' % (val, text)))
+        else:
+            rv, unit = pr
+            if got != rv and not (isinstance(got, float) and got != got and rv != rv):
+                out.append((base + '|real-parse-differs|' + vclass(typ, val), 'printed %r means %r, library read %r' % (text, rv, got)))
+            elif abs(rv - val) > unit * (1 + 1e-9):
+                out.append((base + '|real-wrong-number|' + vclass(typ, val),
+                            'real %r printed as %r = %r, more than one unit of the last printed digit away' % (val, text, rv)))
+    return out
+
+
+def eval_multi_case(parser, tname, rec_kind, names, fmts, cols, width, assign):
+    """One record with SEVERAL fields under test at once (assign: {position: value}), sentinels elsewhere.
+    Same oracle as eval_case: the write raises (allowed unless every value fits), or the record has its
+    width, every untouched field reads back its sentinel and every field under test reads back its value."""
+    vals = [sentinel(*split_fmt(f)[:2], pos=j) for j, f in enumerate(fmts)]
+    for k, v in assign.items():
+        vals[k] = v
+    pos = sorted(assign)
+    tag = '+'.join('%d:%s' % (k, names[k] if k < len(names) else '?') for k in pos)
+    base = 'C02|%s|%s|%s|%s|crossed' % (tname, rec_kind, tag, '+'.join(fmts[k] for k in pos))
+    out = []
+    try:
+        s = parser.write_values_to_string(vals, rec_kind)
+    except core.CaseTimeout:
+        raise
+    except Exception as e:
+        if all(fits(*split_fmt(fmts[k])[:3], val=assign[k]) for k in pos):
+            out.append((base + '|raises-on-fitting-values', 'write raised %s for values that all fit their fields: %r'
+                        % (type(e).__name__, [assign[k] for k in pos])))
+        return out, 'raised'
+    if len(s) != width:
+        out.append((base + '|record-width', 'record is %d columns wide, format says %d: %r -> %r' % (len(s), width, assign, s)))
+    try:
+        back = parser.parse_string(s, rec_kind)
+    except Exception as e:
+        out.append((base + '|parse-raises', 'parse_string raised %r on %r' % (e, s)))
+        return out, 'parse-raised'
+    for j, f in enumerate(fmts):
+        if j in assign:
+            continue
+        tj, wj, pj, lj = split_fmt(f)
+        if tj == 'x' or vals[j] is None:
+            ok = back[j] is None or (isinstance(back[j], str) and back[j].strip() == '')
+        else:
+            ok = back[j] == expected_sentinel(tj, f, vals[j])
+        if not ok:
+            out.append((base + '|neighbour-corrupted', 'field %d (%s) reads back %r instead of %r after writing %r: %r'
+                        % (j, f, back[j], vals[j], assign, s)))
+            break
+    for k in pos:
+        typ, w, prec, left = split_fmt(fmts[k])
+        fb = 'C02|%s|%s|%d:%s|%s|crossed-with-%s' % (tname, rec_kind, k, names[k] if k < len(names) else '?', fmts[k],
+                                                    '+'.join(str(q) for q in pos if q != k))
+        out += check_field(fb, typ, w, prec, s[cols[k][0]:cols[k][1]], back[k], assign[k], s)
+    return out, 'ok'
+
+
+def pairs_unit(unit, tier, rec):
+    """Two fields of one record at their limits at the same time (every pair of positions x the reduced
+    boundary alphabet of each), and, in the thorough tier, every three adjacent fields: a guard that looks
+    at one field at a time, or a width that is right only while the neighbour is narrow, shows here."""
+    _, tname, rec_kind = unit
+    parser = tables()[tname]
+    names, fmts = parser.specification[rec_kind]
+    cols, width = ref_columns(fmts)
+    live = [i for i, f in enumerate(fmts) if split_fmt(f)[0] != 'x']
+    alph = {i: pair_values(*split_fmt(fmts[i])[:3], tier=tier) for i in live}
+    n = 0
+    for a in range(len(live)):
+        for b in range(a + 1, len(live)):
+            i, j = live[a], live[b]
+            for vi in alph[i]:
+                for vj in alph[j]:
+                    viol, oc = eval_multi_case(parser, tname, rec_kind, names, fmts, cols, width, {i: vi, j: vj})
+                    rec.case((tname, rec_kind, 'pair', i, repr(vi), j, repr(vj)), nontrivial=vi is not None and vj is not None, outcome='pair-' + oc)
+                    n += 1
+                    for sig, what in viol:
+                        rec.violation(sig, what, {'table': tname, 'record': rec_kind, 'assign': {str(i): repr(vi), str(j): repr(vj)}})
+    t = 0
+    if tier == 'thorough':
+        small = {i: pair_values(*split_fmt(fmts[i])[:3], tier='quick') for i in live}
+        for a in range(len(live) - 2):
+            i, j, k = live[a], live[a + 1], live[a + 2]
+            for vi in small[i]:
+                for vj in small[j]:
+                    for vk in small[k]:
+                        viol, oc = eval_multi_case(parser, tname, rec_kind, names, fmts, cols, width, {i: vi, j: vj, k: vk})
+                        rec.case((tname, rec_kind, 'triple', i, repr(vi), repr(vj), repr(vk)),
+                                 nontrivial=None not in (vi, vj, vk), outcome='triple-' + oc)
+                        t += 1
+                        for sig, what in viol:
+                            rec.violation(sig, what, {'table': tname, 'record': rec_kind,
+                                                      'assign': {str(i): repr(vi), str(j): repr(vj), str(k): repr(vk)}})
+    rec.count('pair_cases', n)
+    rec.count('triple_cases', t)
+
+
 def run_unit(unit, tier, rec):
+    if unit[0] == 'pairs':
+        return pairs_unit(unit, tier, rec)
     if unit[0] == 'two-parsers':
         return two_parsers_unit(rec)
     if unit[0] == 'containers-and-files':
@@ -638,6 +788,12 @@ def replay(case):
         two_parsers_unit(r)
         return [(sig, e['what']) for sig, e in r.viol.items()]
     parser = tables()[case['table']]
+    if 'assign' in case:
+        names, fmts = parser.specification[case['record']]
+        cols, width = ref_columns(fmts)
+        env = {'inf': float('inf'), 'nan': float('nan')}
+        assign = {int(k): eval(v, env) for k, v in case['assign'].items()}
+        return eval_multi_case(parser, case['table'], case['record'], names, fmts, cols, width, assign)[0]
     if case.get('full_dict'):
         return eval_full_dict_case(parser, case['table'], case['record'])
     if 'dict' in case:
